@@ -279,8 +279,8 @@ class LoopSpec:
             return names_
         renamed = {}
         for m, sp_ in list(self.havoc.items()):
-            if isinstance(sp_, (ListSpec, DictSpec)) and not fr.lookup(m)[0]:
-                cands_ = [x for x in _resolve("list" if isinstance(sp_, ListSpec) else "dict") if x not in self.havoc]
+            if isinstance(sp_, (ListSpec, DictSpec, FilterListSpec)) and not fr.lookup(m)[0]:
+                cands_ = [x for x in _resolve("dict" if isinstance(sp_, DictSpec) else "list") if x not in self.havoc]
                 if len(cands_) != 1:
                     raise Unsupported(f"loop {self.name}: the container '{m}' named by the sidecar is not a local of the function")
                 renamed[m] = cands_[0]
@@ -288,6 +288,11 @@ class LoopSpec:
             self.havoc = {renamed.get(m, m): sp_ for m, sp_ in self.havoc.items()}
         listspecs = {m: sp_ for m, sp_ in self.havoc.items() if isinstance(sp_, ListSpec)}
         for m in listspecs:
+            ok0, cur0 = fr.lookup(m)
+            path.oblige(oid(f"{self.name} / init: {m} is the empty list"), z3.BoolVal(ok0 and isinstance(cur0, PList) and not cur0.items),
+                        kind="inv-init")
+        filterspecs = {m: sp_ for m, sp_ in self.havoc.items() if isinstance(sp_, FilterListSpec)}
+        for m in filterspecs:
             ok0, cur0 = fr.lookup(m)
             path.oblige(oid(f"{self.name} / init: {m} is the empty list"), z3.BoolVal(ok0 and isinstance(cur0, PList) and not cur0.items),
                         kind="inv-init")
@@ -301,7 +306,7 @@ class LoopSpec:
             if m in target_names:
                 continue
             ok, cur = fr.lookup(m)
-            if m in listspecs or m in dictspecs:
+            if m in listspecs or m in dictspecs or m in filterspecs:
                 continue
             fr.assign(m, self.havoc_value(ip, m, cur))
         if mutated is not None:
@@ -311,6 +316,8 @@ class LoopSpec:
             i = i_pre
             for m, ls in listspecs.items():
                 fr.assign(m, GList(SSeq(i, ls.spec_elem, "list", ls.tagname, tag=("listspec", ls.tagname)), []))
+            for m, fs in filterspecs.items():
+                fr.assign(m, GList(fs.view(ip, fs.cnt(i)), []))
             dict_writes = {}
             for m, ds in dictspecs.items():
                 writes = []
@@ -359,6 +366,30 @@ class LoopSpec:
                 finally:
                     for nm_, v_ in saved.items():
                         fr.locals[nm_] = v_
+            for m, fs in filterspecs.items():
+                ok_, gl = fr.lookup(m)
+                if not isinstance(gl, GList) or len(gl.appended) > 1:
+                    goalsn.append(z3.BoolVal(False))
+                    continue
+                if not gl.appended:
+                    goalsn.append(z3.Not(fs.keep(i)))          # nothing appended on this path: the iteration is not a kept one
+                    continue
+                goalsn.append(fs.keep(i))
+                saved = {}
+                for nm_ in assigned_in_body:
+                    if nm_ in fr.locals:
+                        saved[nm_] = fr.locals[nm_]
+                        fr.locals[nm_] = Poison(nm_)
+                try:
+                    from .interp import LateBound
+                    try:
+                        goalsn.extend(fs.elem_ok(ip, gl.appended[0], fs.cnt(i)))
+                    except LateBound as lb_:
+                        path.oblige(oid(f"{self.name} / element of {m}: closure reads the loop-rebound variable '{lb_.name}' when called later"),
+                                    False, kind="inv-preserve")
+                finally:
+                    for nm_, v_ in saved.items():
+                        fr.locals[nm_] = v_
             for m, ds in dictspecs.items():
                 w = dict_writes[m]
                 if len(w) != 1:
@@ -374,6 +405,8 @@ class LoopSpec:
             fr.assign(m, ds.make_map(ip, n))
         for m, ls in listspecs.items():
             fr.assign(m, SSeq(n, ls.spec_elem, "list", ls.tagname, tag=("listspec", ls.tagname)))
+        for m, fs in filterspecs.items():
+            fr.assign(m, fs.view(ip, fs.cnt(n)))
         ste = LoopSpec.State(ip, fr, n, n, S)
         ste.loop_stmt = st
         for g in self._inv_terms(ste):
@@ -421,6 +454,34 @@ class ListSpec:
         self.spec_elem = spec_elem
         self.equal = equal
         self.tagname = tagname
+
+
+class FilterListSpec:
+    """Specification of a list built by AT MOST one append per iteration (a filter): iteration k appends iff keep(k);
+    cnt(k) is the number of kept iterations below k, i.e. the length after k iterations (the sidecar supplies it together with
+    the instances of its defining equations, see seqtheory.filter_count).  The element at list position p is the abstract
+    value fresh_elem(p), about which exactly elem_ok(ip, value, p) is known: the engine assumes those facts for positions
+    inside the list built so far and obliges them for the value appended in iteration k at position cnt(k) -- one predicate
+    for both directions, so nothing can be assumed of an element that was not proved when it was appended."""
+    def __init__(self, keep, cnt, fresh_elem, elem_ok, tagname="list", row_len=None):
+        self.keep = keep
+        self.cnt = cnt
+        self.fresh_elem = fresh_elem
+        self.elem_ok = elem_ok
+        self.tagname = tagname
+        self.row_len = row_len          # elements are 1-D arrays of this length (np.array of the list is a matrix)
+
+    def view(self, ip, bound):
+        def get(p):
+            pt = p if not isinstance(p, int) else z3.IntVal(p)
+            v = self.fresh_elem(pt)
+            facts = list(self.elem_ok(ip, v, pt))
+            if facts:
+                ip.path.assume(z3.Implies(z3.And(pt >= 0, pt < bound), z3.And(*facts)))
+            return v
+        S = SSeq(bound, get, "list", self.tagname, tag=("listspec", self.tagname))
+        S.elem_rowlen = self.row_len
+        return S
 
 
 class DictSpec:
